@@ -327,13 +327,24 @@ func notFoundType(msg string, n int) int {
 	if i < 0 {
 		return -1
 	}
+	// the error NAMES the type: the type's text follows the marker; more text may follow it (which parameter, of which
+	// function) — the longest universe type standing there, ending at a word boundary, is the type named
 	name := msg[i+len(marker):]
+	best, bestLen := -2, -1
 	for k := 0; k < n; k++ {
-		if injTypes[k].String() == name {
-			return k
+		t := injTypes[k].String()
+		if !strings.HasPrefix(name, t) || len(t) <= bestLen {
+			continue
 		}
+		if len(name) > len(t) {
+			c := name[len(t)]
+			if c == '_' || c == '.' || c == '*' || (c >= '0' && c <= '9') || (c >= 'a' && c <= 'z') || (c >= 'A' && c <= 'Z') {
+				continue
+			}
+		}
+		best, bestLen = k, len(t)
 	}
-	return -2
+	return best
 }
 
 // ------------------------------------------------------------------ hand-written FastInvokers
